@@ -1,7 +1,7 @@
 """C19 — the in-memory cache SharedDictDataset is transparent for every access history,
 also with several processes sharing the cache.
 
-Three kinds of cases, all on the REAL class kappadata.caching.shared_dict_dataset.SharedDictDataset:
+Five kinds of cases, all on the REAL class kappadata.caching.shared_dict_dataset.SharedDictDataset:
  seq    random sequential histories (get / repeated get / dispose / shared_dict.clear() / len, negative and
         out-of-range indices, np.int64 indices) over several holders of one cache (copy.copy / pickle round trip of
         the dataset object: all talk to the same REAL multiprocessing.Manager dict) and several independent caches
@@ -19,6 +19,19 @@ Three kinds of cases, all on the REAL class kappadata.caching.shared_dict_datase
         monotonic-clock interval, loads, ...): the harness searches an interleaving of these steps that respects real time
         and under which the model takes exactly these steps; Coq then replays the model on that schedule and compares
         every process' event sequence and the final cache content (linearisability w.r.t. the model).
+ loader a REAL torch.utils.data.DataLoader over the cached dataset (num_workers 0 / 1 / 2, batch_size 1-4 / None, several
+        epochs each with its own index sequence, dispose between epochs, consumer writes to received batches); the
+        collate_fn reports, from inside the fetching process, what the wrapped dataset was asked for during the fetch of
+        the batch.  num_workers <= 1 is a sequential history over the holders {main, worker of epoch 0, ...} and is
+        checked like "seq" (spec + model); 2 workers like "procs" (order-free spec) + a per-epoch bound on the loads.
+ attr   who answers getattr(cached, name) for the names the cache layer uses itself, for names only the wrapped dataset
+        has and for the names copy / pickle probe on a blank instance; compared with coq/C19/Attr.v.
+In every kind the wrapped dataset is a plain class, a class that also defines __getitems__ or a real torch Subset, and may
+carry attributes of its own under the names the cache layer uses (`transform` - applied inside its __getitem__, not
+idempotent -, `dataset`, `shared_dict`, `logger`, `dispose`, `_cached_getitem`, `indices`: decoys answering with garbage).
+Payloads: 15 fixed types + "graph": random picklable object graphs (dataclasses, frozen dataclasses, classes with __dict__ /
+__slots__, namedtuples, namespaces, list / dict subclasses nested in one another, tensors / arrays / scalars at the
+leaves); the in-place transform and the consumer write walk the whole returned object graph.
 """
 import copy
 import itertools
@@ -29,8 +42,9 @@ import threading
 from .common import C, Nat, Raw, Rec, coq
 
 ID = "C19"
-COQ_FILES = ["C19/Model.v", "C19/Spec.v", "C19/Check.v", "C19/Proofs.v", "C19/Property.v"]
-COQ_PRELUDE = ("From Coq Require Import ZArith List Bool.\nImport ListNotations.\n"
+COQ_FILES = ["C19/Model.v", "C19/Attr.v", "C19/Graph.v", "C19/Spec.v", "C19/Check.v", "C19/Proofs.v", "C19/ProofsAttr.v",
+             "C19/ProofsGraph.v", "C19/Property.v"]
+COQ_PRELUDE = ("From Coq Require Import String ZArith List Bool.\nImport ListNotations.\n"
                "From KD Require Import C19.Model C19.Spec C19.Check.\nOpen Scope Z_scope.\n")
 COQ_CHECK = "check"
 COQ_CASE_TYPE = "case_t"
@@ -49,7 +63,18 @@ TRUSTED = [
     "operation and every wrapped-dataset access), payload encoding/decoding into integer ids, ticket / in-place transforms, "
     "the schedule search of the procs cases (untrusted: its result is re-checked by Coq; a miss shows up as drift)",
     "one integer stands for a whole sample: a sample mixing tensors (by reference) and other parts (by value) is modelled as "
-    "by-reference; under the repaired code the transport makes no observable difference (that is the theorem)",
+    "by-reference; under the repaired code the transport makes no observable difference (that is the theorem); "
+    "coq/C19/Graph.v justifies the abstraction for samples that are arbitrary TREES of containers / objects with tensors at the "
+    "leaves (deepcopy_private: no write through a deep copy is visible in any sample that existed before); sharing of one "
+    "tensor between two fields of a sample (a DAG) and reference cycles are not modelled and not generated",
+    "coq/C19/Attr.v: hand-written model of Python attribute lookup on the cached dataset (instance dict, class bodies, names "
+    "of the foreign bases as recorded from the installed torch, then CachedDataset.__getattr__); tied to KD_REPO by the attr "
+    "cases: observed vars(cached), observed functions of the kappadata class bodies and the observed answerer of ~35 probed "
+    "names (also on a blank instance) are compared with the model",
+    "torch.utils.data._utils.fetch._MapDatasetFetcher.fetch (foreign code): uses dataset.__getitems__ if hasattr and truthy, "
+    "else [dataset[idx] for idx in batch] (Attr.v fetch_route); exercised through the real DataLoader in the loader cases",
+    "loader cases: the loads reported by the collate_fn are attributed to the indices of the batch in order (the fetch of a "
+    "batch is sequential); samples are encoded inside the fetching process",
     "an access of the wrapped dataset is one atomic step and has no effect other than producing the sample",
 ]
 ASSUMPTIONS = [
@@ -59,8 +84,14 @@ ASSUMPTIONS = [
     "the transform may be stateful/random and may work in place: its k-th call in a process is an arbitrary recorded draw; "
     "it does not raise; consumers may modify the samples they received in place",
     "processes do nothing to the shared dict except through cached[i], dispose() and shared_dict.clear()",
+    "the wrapped dataset may define any attributes, also under the names the cache layer uses; it does not override "
+    "__getattribute__; DataLoader indices are in range (the wrapped dataset's IndexError would abort the epoch)",
 ]
-RULE = ("seq 25% / sched 75% + 4 real-process cases + directed aliasing / falsy-payload cases (thorough: + every schedule over "
+RULE = ("seq 24% / sched 58% / real DataLoader 10% (90 with num_workers 0, 12 with 1-2 worker processes; thorough 300 + 100) / "
+        "attribute resolution 6% + 4 real-process cases + directed aliasing / falsy-payload / name-collision / object-payload "
+        "cases; wrapped dataset: plain / with __getitems__ / torch Subset, carrying a random subset of the names the cache layer "
+        "uses (own non-idempotent transform in 50% of those); payloads: 15 fixed types or (35%) a random object graph of depth <= 4; "
+        "(thorough: + every schedule over "
         "{reader, reader, clearer} up to length 8 for four program sets, one of them with tensors, in-place transform and a "
         "consumer write + 36 real-process cases); datasets of 0-6 samples of 10 payload types, indices in -n-1..n incl. "
         "repeats, 1-4 holders on 1-2 caches, transform on 80%; schedules of 0-40 steps over 2-4 processes with "
@@ -93,10 +124,248 @@ def falsy_table():
     return [None, 0, "", (), False, torch.empty(0), 0.0, b"", [], {}, np.zeros(0)]
 
 
+# ---- payload type "graph": an arbitrary picklable object graph described by a shape (JSON lists) ----
+#   leaves      ["int"] ["str"] ["float"] ["bytes"] ["none"] ["tensor", dims, "i64"|"f32"] ["ndarray", dims]
+#   containers  ["list", s...] ["tuple", s...] ["sublist", s...] ["dict", [key, s]...] ["subdict", [key, s]...]
+#   objects     ["nt", s...] namedtuple, ["dc", s...] dataclass, ["fdc", s...] frozen dataclass, ["slots", s...] class with
+#               __slots__ (1-3 fields each), ["plain", [attr, s]...] class with __dict__, ["ns", [attr, s]...] SimpleNamespace
+# every leaf that can carry a number carries the sample id
+import collections as _collections
+import dataclasses as _dataclasses
+import types as _types
+
+NT1 = _collections.namedtuple("NT1", ["a"])
+NT2 = _collections.namedtuple("NT2", ["a", "b"])
+NT3 = _collections.namedtuple("NT3", ["a", "b", "c"])
+
+
+@_dataclasses.dataclass
+class DC1:
+    a: object
+
+
+@_dataclasses.dataclass
+class DC2:
+    a: object
+    b: object
+
+
+@_dataclasses.dataclass
+class DC3:
+    a: object
+    b: object
+    c: object
+
+
+@_dataclasses.dataclass(frozen=True)
+class FDC1:
+    a: object
+
+
+@_dataclasses.dataclass(frozen=True)
+class FDC2:
+    a: object
+    b: object
+
+
+@_dataclasses.dataclass(frozen=True)
+class FDC3:
+    a: object
+    b: object
+    c: object
+
+
+class Slots1:
+    __slots__ = ("a",)
+
+    def __init__(self, a):
+        self.a = a
+
+
+class Slots2:
+    __slots__ = ("a", "b")
+
+    def __init__(self, a, b):
+        self.a, self.b = a, b
+
+
+class Slots3(Slots2):                 # slots spread over the MRO
+    __slots__ = ("c",)
+
+    def __init__(self, a, b, c):
+        Slots2.__init__(self, a, b)
+        self.c = c
+
+
+class Plain:
+    """a sample class with a __dict__ (attribute container)"""
+
+
+class SubList(list):
+    pass
+
+
+class SubDict(dict):
+    pass
+
+
+G_FIELDS = ("a", "b", "c")
+G_CLASSES = {"nt": (NT1, NT2, NT3), "dc": (DC1, DC2, DC3), "fdc": (FDC1, FDC2, FDC3), "slots": (Slots1, Slots2, Slots3)}
+G_SEQ = {"list": list, "tuple": tuple, "sublist": SubList}
+G_MAP = {"dict": dict, "subdict": SubDict}
+G_ATTR = {"plain": Plain, "ns": _types.SimpleNamespace}
+
+
+def g_build(s, k):
+    import numpy as np
+    import torch
+    t = s[0]
+    if t == "int":
+        return k
+    if t == "str":
+        return "s%d" % k
+    if t == "float":
+        return k + 0.5
+    if t == "bytes":
+        return b"b%d" % k
+    if t == "none":
+        return None
+    if t == "tensor":
+        return torch.full(tuple(s[1]), k, dtype=torch.int64) if s[2] == "i64" else torch.full(tuple(s[1]), float(k), dtype=torch.float32)
+    if t == "ndarray":
+        return np.full(tuple(s[1]), k, dtype=np.int64)
+    if t in G_SEQ:
+        return G_SEQ[t](g_build(x, k) for x in s[1:])
+    if t in G_MAP:
+        return G_MAP[t]((key, g_build(x, k)) for key, x in s[1:])
+    if t in G_CLASSES:
+        return G_CLASSES[t][len(s) - 2](*[g_build(x, k) for x in s[1:]])
+    if t in G_ATTR:
+        o = G_ATTR[t]()
+        for name, x in s[1:]:
+            setattr(o, name, g_build(x, k))
+        return o
+    raise ValueError(s)
+
+
+def _g_ids(s, o, out):
+    """strict structural comparison of o with shape s; appends the id every leaf carries; False = o is not such a payload"""
+    import numpy as np
+    import torch
+    t = s[0]
+    if t == "int":
+        if type(o) is not int:
+            return False
+        out.append(o)
+        return True
+    if t == "str":
+        if type(o) is not str or o[:1] != "s":
+            return False
+        out.append(int(o[1:]))
+        return True
+    if t == "float":
+        if type(o) is not float or o - 0.5 != int(o - 0.5):
+            return False
+        out.append(int(o - 0.5))
+        return True
+    if t == "bytes":
+        if type(o) is not bytes or o[:1] != b"b":
+            return False
+        out.append(int(o[1:]))
+        return True
+    if t == "none":
+        return o is None
+    if t == "tensor":
+        if not (torch.is_tensor(o) and list(o.shape) == list(s[1]) and o.dtype == (torch.int64 if s[2] == "i64" else torch.float32)):
+            return False
+        if o.numel():
+            v = o.reshape(-1)[0].item()
+            if not bool((o == v).all()) or v != int(v):
+                return False
+            out.append(int(v))
+        return True
+    if t == "ndarray":
+        if not (isinstance(o, np.ndarray) and list(o.shape) == list(s[1]) and o.dtype == np.int64):
+            return False
+        if o.size:
+            v = int(o.reshape(-1)[0])
+            if not (o == v).all():
+                return False
+            out.append(v)
+        return True
+    if t in G_SEQ:
+        return type(o) is G_SEQ[t] and len(o) == len(s) - 1 and all(_g_ids(x, y, out) for x, y in zip(s[1:], o))
+    if t in G_MAP:
+        return (type(o) is G_MAP[t] and list(o.keys()) == [key for key, _ in s[1:]]
+                and all(_g_ids(x, o[key], out) for key, x in s[1:]))
+    if t in G_CLASSES:
+        if type(o) is not G_CLASSES[t][len(s) - 2]:
+            return False
+        return all(_g_ids(x, getattr(o, f), out) for x, f in zip(s[1:], G_FIELDS))
+    if t in G_ATTR:
+        if type(o) is not G_ATTR[t] or list(vars(o)) != [name for name, _ in s[1:]]:
+            return False
+        return all(_g_ids(x, getattr(o, name), out) for name, x in s[1:])
+    return False
+
+
+def g_decode(s, o):
+    out = []
+    if not _g_ids(s, o, out) or not out or any(v != out[0] for v in out):
+        return None
+    return out[0]
+
+
+def g_has_tensor(s):
+    if s[0] == "tensor":
+        return True
+    if s[0] in G_MAP or s[0] in G_ATTR:
+        return any(g_has_tensor(x) for _, x in s[1:])
+    if s[0] in G_SEQ or s[0] in G_CLASSES:
+        return any(g_has_tensor(x) for x in s[1:])
+    return False
+
+
+def g_carries_id(s):
+    import math
+    if s[0] in ("int", "str", "float", "bytes"):
+        return True
+    if s[0] in ("tensor", "ndarray"):
+        return math.prod(s[1]) > 0
+    if s[0] == "none":
+        return False
+    if s[0] in G_MAP or s[0] in G_ATTR:
+        return any(g_carries_id(x) for _, x in s[1:])
+    return any(g_carries_id(x) for x in s[1:])
+
+
+def g_kinds(s, out=None):
+    out = set() if out is None else out
+    out.add(s[0])
+    for x in s[1:]:
+        if s[0] in G_MAP or s[0] in G_ATTR:
+            g_kinds(x[1], out)
+        elif s[0] in G_SEQ or s[0] in G_CLASSES:
+            g_kinds(x, out)
+    return out
+
+
+def pspec(case):
+    """what make_payload / payload_id need: the name of a fixed payload type or the shape of a graph payload"""
+    return case["shape"] if case["ptype"] == "graph" else case["ptype"]
+
+
+def is_byref(case):
+    """the payload contains torch tensors: the Manager connection ships those as shared-memory handles"""
+    return g_has_tensor(case["shape"]) if case["ptype"] == "graph" else case["ptype"] in BYREF
+
+
 def make_payload(ptype, k):
     """a FRESH object on every call"""
     import numpy as np
     import torch
+    if not isinstance(ptype, str):
+        return g_build(ptype, k)
     if ptype == "int":
         return k
     if ptype == "str":
@@ -139,6 +408,8 @@ def payload_id(ptype, o):
         return torch.is_tensor(t) and tuple(t.shape) == shape and t.dtype == torch.int64
 
     try:
+        if not isinstance(ptype, str):
+            return g_decode(ptype, o)
         if ptype == "int":
             return o if type(o) is int else None
         if ptype == "str":
@@ -216,9 +487,18 @@ def id_code(ptype, o):
     return GARBAGE if k is None or not (0 <= k < GARBAGE) else k
 
 
+def _slot_names(o):
+    return [n for klass in reversed(type(o).__mro__) for n in
+            ((klass.__dict__.get("__slots__"),) if isinstance(klass.__dict__.get("__slots__"), str)
+             else klass.__dict__.get("__slots__", ()))
+            if n not in ("__dict__", "__weakref__")]
+
+
 def mutate(o, delta):
-    """add delta to every number inside o, IN PLACE wherever the object allows it (tensors, arrays, lists, dicts);
-    immutable parts are rebuilt.  Returns the (same, if mutable) object."""
+    """generic walker over an object graph: add delta to every number found ANYWHERE inside o, IN PLACE wherever the
+    object allows it (tensors, arrays, lists, dicts, attributes of objects with __dict__ / __slots__); immutable parts
+    (tuples, namedtuples, frozen dataclasses, numbers, strings) are rebuilt - the tensors / arrays inside them are still
+    modified in place.  Returns the (same, if mutable) object."""
     import re
     import numpy as np
     import torch
@@ -227,16 +507,19 @@ def mutate(o, delta):
     if isinstance(o, np.ndarray):
         o += delta
         return o
-    if type(o) is list:
+    if isinstance(o, list):
         for j in range(len(o)):
             o[j] = mutate(o[j], delta)
         return o
-    if type(o) is dict:
+    if isinstance(o, dict):
         for key in list(o):
             o[key] = mutate(o[key], delta)
         return o
-    if type(o) is tuple:
-        return tuple(mutate(x, delta) for x in o)
+    if isinstance(o, tuple):
+        items = [mutate(x, delta) for x in o]
+        return type(o)(*items) if hasattr(o, "_fields") else type(o)(items)
+    if type(o) is bool or o is None:
+        return o
     if type(o) is int:
         return o + delta
     if type(o) is float:
@@ -245,6 +528,17 @@ def mutate(o, delta):
         return "s%d" % (int(o[1:]) + delta)
     if type(o) is bytes and re.fullmatch(rb"b\d+", o):
         return b"b%d" % (int(o[1:]) + delta)
+    if isinstance(o, (str, bytes, type, _types.FunctionType)):
+        return o
+    names = (list(vars(o)) if hasattr(o, "__dict__") else []) + [n for n in _slot_names(o) if hasattr(o, n)]
+    if names:
+        new = {n: mutate(getattr(o, n), delta) for n in names}
+        try:
+            for n, v in new.items():
+                setattr(o, n, v)
+        except (AttributeError, TypeError):            # frozen: rebuild (what is mutable inside was modified in place)
+            if _dataclasses.is_dataclass(o):
+                return _dataclasses.replace(o, **new)
     return o
 
 
@@ -287,36 +581,178 @@ def make_tf(mode, pid):
     return None if mode is None else Ticket(pid) if mode == "ticket" else InplaceTicket(pid)
 
 
-class CountingBase:
-    """the wrapped dataset: position -> payload id, a FRESH payload object is built on every access; every access is
-    logged (and is a scheduling point)"""
+# ---------------------------------------------------------------------------
+# the wrapped dataset
+# ---------------------------------------------------------------------------
+# case["base"] = {"shape": ..., "attrs": [...], "bd": d} (absent = plain CountingBase without extra attributes)
+#   shape  "plain"     a class with __getitem__ / __len__
+#          "getitems"  ... that also defines __getitems__ (batched fetch, torch >= 2.1 protocol)
+#          "subset"    a torch.utils.data.Subset (defines __getitems__, carries `dataset` and `indices`) over a permuted inner dataset
+#   attrs  attributes the wrapped dataset carries under names the cache layer uses itself (CACHE_NAMES):
+#          "transform" = torchvision style: the wrapped dataset applies its own, NOT idempotent transform (adds bd to every
+#          number) inside its __getitem__ and exposes it as attribute; all others are decoys that answer with garbage
+CACHE_INST = ["logger", "dataset", "transform", "shared_dict"]
+CACHE_CLS = ["__init__", "__getitem__", "__getitems__", "__len__", "__getattr__", "_cached_getitem", "dispose"]
+COLLIDE = ["transform", "dataset", "shared_dict", "logger", "dispose", "_cached_getitem", "indices"]
+BASE_SHAPES = ["plain", "getitems", "subset"]
 
-    def __init__(self, ptype, ids, log, pid, baton=None, steps=None):
-        self.ptype = ptype
-        self.ids = list(ids)
-        self.log = log
-        self.pid = pid
-        self.baton = baton
-        self.steps = steps
+
+class AddT:
+    """the wrapped dataset's own transform (like the `transform` of a torchvision dataset): not idempotent"""
+
+    def __init__(self, d):
+        self.d = d
+
+    def __call__(self, sample):
+        return mutate(sample, self.d)
+
+
+class Decoy:
+    """value of an attribute of the wrapped dataset whose name collides with a name of the cache layer: whoever uses it
+    instead of the cache layer's own gets garbage"""
+
+    def __init__(self, name):
+        self.name = name
+
+    def __getitem__(self, i):
+        return "DECOY"
 
     def __len__(self):
-        return len(self.ids)
+        return 77
 
-    def __getitem__(self, idx):
+    def __contains__(self, k):
+        return True
+
+    def __call__(self, *a, **kw):
+        return "DECOY"
+
+    def __setitem__(self, k, v):
+        pass
+
+    def clear(self):
+        pass
+
+
+class _Counting:
+    """every access of the wrapped dataset is logged (and is a scheduling point)"""
+
+    def _init_counting(self, log, pid, baton, steps):
+        self.log, self.pid, self.baton, self.steps = log, pid, baton, steps
+
+    def _counted(self, idx, fetch):
         import time
         if self.baton is not None:
             self.baton.point(self.pid)
         t0 = time.monotonic_ns()
         self.log.append(["L", self.pid, int(idx)])
         try:
-            k = self.ids[idx]
+            o = fetch(idx)
         except IndexError:
             if self.steps is not None:
                 self.steps.append(["load", int(idx), False, t0, time.monotonic_ns()])
             raise
         if self.steps is not None:
             self.steps.append(["load", int(idx), True, t0, time.monotonic_ns()])
-        return make_payload(self.ptype, k)
+        return o
+
+
+class SilentBase:
+    """position -> payload id; a FRESH payload object is built on every access; `ids` are the ids of the samples the
+    dataset RETURNS: with an own transform (adds d) the raw sample has id - d"""
+
+    def __init__(self, ptype, ids, own_tf=None):
+        self.ptype = ptype
+        self.ids = list(ids)
+        if own_tf is not None:
+            self.transform = own_tf
+
+    def __len__(self):
+        return len(self.ids)
+
+    def _build(self, idx):
+        k = self.ids[idx]
+        tf = self.__dict__.get("transform")
+        if not isinstance(tf, AddT):
+            return make_payload(self.ptype, k)
+        return tf(make_payload(self.ptype, k - tf.d))
+
+    def __getitem__(self, idx):
+        return self._build(idx)
+
+
+class CountingBase(SilentBase, _Counting):
+    """the wrapped dataset (shape "plain")"""
+
+    def __init__(self, ptype, ids, log, pid, baton=None, steps=None, own_tf=None):
+        SilentBase.__init__(self, ptype, ids, own_tf)
+        self._init_counting(log, pid, baton, steps)
+
+    def __getitem__(self, idx):
+        return self._counted(idx, self._build)
+
+
+class CountingBaseBatched(CountingBase):
+    """shape "getitems": the wrapped dataset offers batched fetching"""
+
+    def __getitems__(self, indices):
+        return [self._counted(idx, self._build) for idx in indices]
+
+
+def _counting_subset_class():
+    from torch.utils.data import Subset
+
+    global CountingSubset
+    if "CountingSubset" in globals():
+        return CountingSubset
+
+    class CountingSubset(Subset, _Counting):
+        """shape "subset": a real torch Subset (attributes `dataset`, `indices`, method __getitems__)"""
+
+        def __getitem__(self, idx):
+            return self._counted(idx, lambda i: Subset.__getitem__(self, i))
+
+        def __getitems__(self, indices):
+            return [self._counted(idx, lambda i: Subset.__getitem__(self, i)) for idx in indices]
+
+    CountingSubset.__qualname__ = "CountingSubset"
+    return CountingSubset
+
+
+def base_spec(case):
+    b = case.get("base") or {}
+    return b.get("shape", "plain"), list(b.get("attrs", [])), b.get("bd", 0)
+
+
+def make_base(case, log, pid, baton=None, steps=None):
+    """the dataset handed to SharedDictDataset"""
+    ptype, ids = pspec(case), case["ids"]
+    shape, attrs, bd = base_spec(case)
+    own_tf = AddT(bd) if "transform" in attrs else None
+    if shape == "subset":
+        n = len(ids)
+        perm = [(3 * j + 1) % n for j in range(n)] if n % 3 else list(range(n))[::-1]     # outer position j -> inner position
+        inner_ids = [0] * n
+        for j, q in enumerate(perm):
+            inner_ids[q] = ids[j]
+        base = _counting_subset_class()(SilentBase(ptype, inner_ids, own_tf), perm)
+        base._init_counting(log, pid, baton, steps)
+        if own_tf is not None:
+            base.transform = own_tf
+    else:
+        base = (CountingBaseBatched if shape == "getitems" else CountingBase)(ptype, ids, log, pid, baton, steps, own_tf)
+    for name in attrs:
+        if name == "transform" or (shape == "subset" and name in ("dataset", "indices")):
+            continue
+        setattr(base, name, [0, 0, 0] if name == "indices" else Decoy(name))
+    return base
+
+
+def rebind(ds, name, value):
+    """give a copy of a cached dataset (another holder of the same cache) its own wrapped dataset / transform object:
+    replaces the attribute the constructor created.  An attribute the constructor did not create is not invented
+    (unless there is a value to put there): the copy stays a copy of what the constructor built."""
+    if name in vars(ds) or value is not None:
+        setattr(ds, name, value)
 
 
 # ---------------------------------------------------------------------------
@@ -421,7 +857,7 @@ def shared_manager():
 
 def run_seq(case):
     import kappadata.caching.shared_dict_dataset as mod
-    ptype, mode = case["ptype"], tf_mode(case)
+    ptype, mode = pspec(case), tf_mode(case)
     log = []
     firsts = {}
     handles = []
@@ -432,7 +868,7 @@ def run_seq(case):
         mod.Manager = shared_manager
     try:
         for p, (c, how) in enumerate(zip(case["handles"], case["how"])):
-            base = CountingBase(ptype, case["ids"], log, p)
+            base = make_base(case, log, p)
             tf = make_tf(mode, p)
             if c not in firsts:
                 ds = (mod.SharedDictDataset(base, transform=tf) if tf is not None or how == "kw"
@@ -441,8 +877,8 @@ def run_seq(case):
             else:
                 orig = firsts[c]
                 ds = pickle.loads(pickle.dumps(orig)) if how == "pickle" else copy.copy(orig)
-                ds.dataset = base
-                ds.transform = tf
+                rebind(ds, "dataset", base)
+                rebind(ds, "transform", tf)
             handles.append(ds)
             tfs.append(tf)
         nret = [0] * len(handles)
@@ -614,7 +1050,7 @@ class SchedDict:
 
 def run_sched(case):
     import kappadata.caching.shared_dict_dataset as mod
-    ptype, mode = case["ptype"], tf_mode(case)
+    ptype, mode = pspec(case), tf_mode(case)
     progs = case["progs"]
     n = len(progs)
     log, ops, store = [], [], {}
@@ -628,15 +1064,15 @@ def run_sched(case):
     real_manager = mod.Manager
     mod.Manager = FakeManager
     try:
-        ds0 = mod.SharedDictDataset(CountingBase(ptype, case["ids"], log, 0, baton), transform=tfs[0])
+        ds0 = mod.SharedDictDataset(make_base(case, log, 0, baton), transform=tfs[0])
     finally:
         mod.Manager = real_manager
     handles = [ds0]
     for p in range(1, n):
         ds = copy.copy(ds0)
-        ds.dataset = CountingBase(ptype, case["ids"], log, p, baton)
-        ds.transform = tfs[p]
-        ds.shared_dict = SchedDict(store, baton, p, ops)
+        rebind(ds, "dataset", make_base(case, log, p, baton))
+        rebind(ds, "transform", tfs[p])
+        rebind(ds, "shared_dict", SchedDict(store, baton, p, ops))
         handles.append(ds)
     holds = [Holder(ptype, mode) for _ in range(n)]
     nret = [0] * n
@@ -751,15 +1187,16 @@ class LogProxy:
         return iter(self.__getattr__("keys")())
 
 
-def _worker(p, ds, blob, ptype, mode, ids, prog, barrier, q):
+def _worker(p, ds, blob, case, prog, barrier, q):
     try:
         if blob is not None:
             ds = pickle.loads(blob)
+        ptype, mode = pspec(case), tf_mode(case)
         log, steps = [], []
-        ds.dataset = CountingBase(ptype, ids, log, p, steps=steps)
+        rebind(ds, "dataset", make_base(case, log, p, steps=steps))
         tf = make_tf(mode, p)
-        ds.transform = tf
-        ds.shared_dict = LogProxy(ds.shared_dict, steps)
+        rebind(ds, "transform", tf)
+        rebind(ds, "shared_dict", LogProxy(ds.shared_dict, steps))
         nret = {p: 0}
         hold = Holder(ptype, mode)
         try:
@@ -777,11 +1214,11 @@ def run_procs(case):
     import multiprocessing as mp
     import queue as queue_mod
     from kappadata.caching.shared_dict_dataset import SharedDictDataset
-    ptype, mode = case["ptype"], tf_mode(case)
+    ptype, mode = pspec(case), tf_mode(case)
     progs = case["progs"]
     n = len(progs)
     ctx = mp.get_context("fork")
-    ds = SharedDictDataset(CountingBase(ptype, case["ids"], [], 0), transform=make_tf(mode, 0))
+    ds = SharedDictDataset(make_base(case, [], 0), transform=make_tf(mode, 0))
     workers = []
     q = ctx.Queue()
     barrier = ctx.Barrier(n)
@@ -790,7 +1227,7 @@ def run_procs(case):
     try:
         blob = pickle.dumps(ds) if case.get("pickled") else None
         for p in range(n):
-            w = ctx.Process(target=_worker, args=(p, None if blob else ds, blob, ptype, mode, case["ids"], progs[p], barrier, q),
+            w = ctx.Process(target=_worker, args=(p, None if blob else ds, blob, case, progs[p], barrier, q),
                             daemon=True)
             w.start()
             workers.append(w)
@@ -955,11 +1392,285 @@ def find_schedule(progs, steps, n_ids, final_keys, realtime=True, budget=400000)
     return "none", best, nodes
 
 
+# ---------------------------------------------------------------------------
+# kind "loader": a real torch DataLoader over the cached dataset
+# ---------------------------------------------------------------------------
+_LOADER_CTX = {"epoch": 0}      # read in the worker processes (forked at the start of every epoch)
+
+
+def _worker_id():
+    from torch.utils.data import get_worker_info
+    wi = get_worker_info()
+    return None if wi is None else wi.id
+
+
+class LoaderTicket:
+    """post-cache transform of the loader cases.  A logical process is the main process (num_workers = 0: process 0) or
+    one worker process of one epoch (process 1 + epoch * num_workers + worker id; process 0 = the main process, which
+    only clears); like Ticket / InplaceTicket the k-th call of a process draws ticket pid * TICKETS + k"""
+
+    def __init__(self, mode, workers):
+        self.mode, self.workers = mode, workers
+        self.issued = []
+
+    def __call__(self, sample):
+        w = _worker_id()
+        pid = 0 if w is None else 1 + _LOADER_CTX["epoch"] * self.workers + w
+        t = pid * TICKETS + len(self.issued)
+        self.issued.append(t)
+        return ("T", t, sample) if self.mode == "ticket" else mutate(sample, 1000 * (t + 1))
+
+
+class LoaderCollate:
+    """collate_fn: runs in the process that fetched the batch; reports which worker that was, what the wrapped dataset
+    was asked for during the fetch, the tickets the transform drew and the samples (encoded NOW)"""
+
+    def __init__(self, base, tf, ptype, mode, auto, keep):
+        self.base, self.tf, self.ptype, self.mode, self.auto, self.keep = base, tf, ptype, mode, auto, keep
+        self.seen = 0
+
+    def __call__(self, samples):
+        items = list(samples) if self.auto else [samples]
+        loads = [e[2] for e in self.base.log]
+        del self.base.log[:]
+        issued = []
+        if self.tf is not None:
+            issued = list(self.tf.issued[self.seen:])
+            self.seen = len(self.tf.issued)
+        w = _worker_id()
+        return {"w": -1 if w is None else w, "loads": loads, "issued": issued,
+                "codes": [result_code(self.ptype, self.mode, r) for r in items], "samples": items if self.keep else None}
+
+
+def loader_batches(case):
+    bs = case["bs"]
+    return [[[i] for i in idxs] if bs is None else [idxs[j:j + bs] for j in range(0, len(idxs), bs)] for idxs in case["epochs"]]
+
+
+def run_loader(case):
+    import kappadata.caching.shared_dict_dataset as mod
+    from torch.utils.data import DataLoader
+    ptype, mode, w = pspec(case), tf_mode(case), case["workers"]
+    own = case.get("own_manager", False)
+    base = make_base(case, [], 0)
+    tf = None if mode is None else LoaderTicket(mode, w)
+    real_manager = mod.Manager
+    if not own:
+        mod.Manager = shared_manager
+    try:
+        ds = mod.SharedDictDataset(base, transform=tf) if tf is not None or case.get("how") == "kw" else mod.SharedDictDataset(base)
+    finally:
+        mod.Manager = real_manager
+    nproc = 1 if w == 0 else 1 + len(case["epochs"]) * w
+    log, nret, draws = [], [0] * nproc, [[] for _ in range(nproc)]
+    progs = [[] for _ in range(nproc)]
+    muts = {(e, b): d for e, b, d in case.get("mut", [])}
+    collate = LoaderCollate(base, tf, ptype, mode, case["bs"] is not None, w == 0)
+    try:
+        for e, (idxs, batches) in enumerate(zip(case["epochs"], loader_batches(case))):
+            _LOADER_CTX["epoch"] = e
+            dl = DataLoader(ds, batch_size=case["bs"], sampler=list(idxs), num_workers=w, collate_fn=collate,
+                            **({"multiprocessing_context": "fork"} if w else {}))
+            outs = list(dl)
+            if len(outs) != len(batches):
+                return {"harness_exception": "the DataLoader yielded %d batches for %d" % (len(outs), len(batches))}
+            for b, (batch, out) in enumerate(zip(batches, outs)):
+                p = 0 if w == 0 else 1 + e * w + out["w"]
+                draws[p] += out["issued"]
+                loads, li = out["loads"], 0
+                codes = out["codes"] + [-1] * (len(batch) - len(out["codes"]))
+                # the fetch of a batch is sequential: the loads are attributed to the indices of the batch in order
+                for idx, code in zip(batch, codes):
+                    if li < len(loads) and loads[li] == idx:
+                        log.append(["L", p, idx])
+                        li += 1
+                    log.append(["R", p, idx, nret[p], ["V", code]])
+                    nret[p] += 1
+                    progs[p].append(["get", idx])
+                for idx in loads[li:]:
+                    log.append(["L", p, idx])
+                if (e, b) in muts and w == 0:                 # the consumer modifies the batch it received in place
+                    for r in out["samples"]:
+                        mutate(r[2] if mode == "ticket" else r, muts[(e, b)])
+                    log.append(["M", 0])
+                    progs[0].append(["mut", muts[(e, b)]])
+            if case["clear_after"][e]:
+                ds.dispose()
+                log.append(["C", 0])
+                progs[0].append(["dispose"])
+        content = dict_content(ptype, ds.shared_dict.copy())
+    finally:
+        if own:
+            try:
+                ds.shared_dict._manager.shutdown()
+            except Exception:
+                pass
+    return {"log": log, "dicts": [content], "draws": draws, "progs": progs, "lin": "budget", "sched": []}
+
+
+def loader_view(case, obs):
+    """a loader case as the sequential history / the per-process programs it amounts to: num_workers <= 1 is sequential
+    (one process fetches at a time, the main process clears between epochs) -> a "seq" history over the holders
+    {main, worker of epoch 0, worker of epoch 1, ...} of one cache; with more workers the order between the workers of
+    an epoch is unknown -> "procs" """
+    w = case["workers"]
+    if w >= 2:
+        return {"kind": "procs", "progs": obs.get("progs", [])}
+    muts = {(e, b): d for e, b, d in case.get("mut", [])}
+    hist = []
+    for e, batches in enumerate(loader_batches(case)):
+        p = 0 if w == 0 else 1 + e
+        for b, batch in enumerate(batches):
+            hist += [[p, "get", i] for i in batch]
+            if (e, b) in muts and w == 0:
+                hist.append([0, "mut", muts[(e, b)]])
+        if case["clear_after"][e]:
+            hist.append([0, "dispose"])
+    nproc = 1 if w == 0 else 1 + len(case["epochs"])
+    return {"kind": "seq", "handles": [0] * nproc, "hist": hist}
+
+
+def loader_loads_oracle(case, obs):
+    """num_workers >= 2: between two clears an index is loaded at least once and at most once per worker of the epoch
+    in which it is first fetched, and never in a later epoch"""
+    w = case["workers"]
+    cached = set()
+    for e, idxs in enumerate(case["epochs"]):
+        pids = set(range(1 + e * w, 1 + (e + 1) * w))
+        loads = {}
+        for ev in obs["log"]:
+            if ev[0] == "L" and ev[1] in pids:
+                loads[ev[2]] = loads.get(ev[2], 0) + 1
+        for i in sorted(set(idxs)):
+            k = loads.pop(i, 0)
+            if i in cached and k:
+                return (f"epoch {e}: index {i} was loaded {k} times although it was fetched in an earlier epoch and the "
+                        f"cache was not cleared since")
+            if i not in cached and not 1 <= k <= w:
+                return f"epoch {e}: index {i} (not fetched since the last clear) was loaded {k} times by {w} workers"
+        if loads:
+            return f"epoch {e}: the wrapped dataset was asked for indices nobody fetched: {loads}"
+        cached |= set(idxs)
+        if case["clear_after"][e]:
+            cached = set()
+    return None
+
+
+# ---------------------------------------------------------------------------
+# kind "attr": who answers getattr(cached, name)
+# ---------------------------------------------------------------------------
+def attr_probes(case):
+    return sorted(set(CACHE_INST + CACHE_CLS + COLLIDE + list(case.get("extra", []))
+                      + ["__deepcopy__", "__setstate__", "__getstate__", "__iter__", "__add__", "__class__", "__dict__",
+                         "__reduce_ex__", "classes", "nope", "__getitems__", "__len__"]))
+
+
+def _who(obj, base, name):
+    """0 = normal lookup on the object answers, 1 = only __getattr__ answers and hands out the wrapped dataset's
+    attribute, 2 = AttributeError, 3 = anything else (e.g. RecursionError, a value of unknown origin)"""
+    try:
+        object.__getattribute__(obj, name)
+        return 0
+    except AttributeError:
+        pass
+    try:
+        v = getattr(obj, name)
+    except AttributeError:
+        return 2
+    except BaseException:
+        return 3
+    if base is None:
+        return 3
+    try:
+        bv = getattr(base, name)
+    except AttributeError:
+        return 3
+    return 1 if v is bv or v == bv else 3
+
+
+def run_attr(case):
+    import types
+    import kappadata.caching.shared_dict_dataset as mod
+    mode = tf_mode(case)
+    base = make_base(case, [], 0)
+    for name in case.get("extra", []):
+        setattr(base, name, Decoy(name))
+    tf = make_tf(mode, 0)
+    real_manager = mod.Manager
+    mod.Manager = shared_manager
+    try:
+        ds = mod.SharedDictDataset(base, transform=tf) if tf is not None or case.get("how") == "kw" else mod.SharedDictDataset(base)
+    finally:
+        mod.Manager = real_manager
+    probes = attr_probes(case)
+    mro = type(ds).__mro__
+    mine = [K for K in mro if K.__module__.split(".")[0] == "kappadata"]
+    foreign = [K for K in mro if K.__module__.split(".")[0] != "kappadata"]
+    cls = sorted({n for K in mine for n, v in vars(K).items() if isinstance(v, types.FunctionType)})
+    other_cls = sorted({n for K in mine for n, v in vars(K).items() if not isinstance(v, types.FunctionType)
+                        and n in probes})
+    inherited = [n for n in probes if any(n in vars(K) for K in foreign)]
+    bhas = [n for n in probes if hasattr(base, n)]
+    blank = type(ds).__new__(type(ds))
+
+    def same(a, b):
+        return a is b
+
+    def owner(name):
+        """the cache layer's own method - or nothing at all (never the wrapped dataset's)"""
+        try:
+            return getattr(getattr(ds, name), "__self__", None) is ds
+        except AttributeError:
+            return True
+
+    facts = {
+        "cached.transform is the constructor's transform": same(getattr(ds, "transform", None), tf),
+        "cached.dataset is the wrapped dataset": same(getattr(ds, "dataset", "missing"), base),
+        "cached.shared_dict is the Manager dict": type(getattr(ds, "shared_dict", None)).__name__ == "DictProxy",
+        "cached.__getitems__ is the cache layer's": owner("__getitems__"),
+        "cached.dispose is the cache layer's": owner("dispose"),
+        "cached._cached_getitem is the cache layer's": owner("_cached_getitem"),
+        "len(cached) == len(wrapped)": len(ds) == len(base),
+    }
+    return {"inst": sorted(vars(ds)), "cls": cls, "other_cls": other_cls, "inherited": inherited, "bhas": bhas,
+            "probes": [[n, _who(ds, base, n)] for n in probes],
+            "blank": [[n, _who(blank, None, n)] for n in probes], "facts": facts}
+
+
+def attr_oracle(case, obs):
+    for what, ok in obs["facts"].items():
+        if not ok:
+            return f"not true: {what} (wrapped dataset: {base_spec(case)}, extra attributes {case.get('extra', [])}, transform {tf_mode(case)})"
+    for n, who in obs["probes"]:
+        if n in CACHE_INST + CACHE_CLS and who == 1:
+            return (f"getattr(cached, {n!r}) is forwarded to the wrapped dataset although the cache layer uses / defines this "
+                    f"name itself (wrapped dataset: {base_spec(case)}, transform {tf_mode(case)})")
+        if who == 3:
+            return f"getattr(cached, {n!r}): neither the cache layer's, nor the wrapped dataset's attribute, nor AttributeError"
+    for n, who in obs["blank"]:
+        if who in (1, 3):
+            return f"getattr of {n!r} on an instance whose __dict__ is still empty (copy / unpickling) does not end in AttributeError"
+    return None
+
+
 def run_impl(case):
+    try:
+        return _run_impl(case)
+    except Exception as e:        # e.g. RecursionError out of copy.copy / pickle.loads / getattr of the cached dataset
+        import traceback
+        return {"harness_exception": "the cached dataset could not be built / copied / used: " + repr(e)[:300],
+                "tb": " | " + " <- ".join(ln.strip() for ln in traceback.format_exc().splitlines()[-7:])[:900]}
+
+
+def _run_impl(case):
     if case["kind"] == "seq":
         return run_seq(case)
     if case["kind"] == "sched":
         return run_sched(case)
+    if case["kind"] == "loader":
+        return run_loader(case)
+    if case["kind"] == "attr":
+        return run_attr(case)
     return run_procs(case)
 
 
@@ -988,6 +1699,17 @@ def op_events_ok(p, op, evs, ids):
 def oracle(case, obs):
     if "harness_exception" in obs:
         return "harness exception: " + obs["harness_exception"] + obs.get("tb", "")
+    if case["kind"] == "attr":
+        return attr_oracle(case, obs)
+    if case["kind"] == "loader":
+        msg = _oracle({**case, **loader_view(case, obs)}, obs)
+        if msg is None and case["workers"] >= 2:
+            msg = loader_loads_oracle(case, obs)
+        return msg and "DataLoader(cached, batch_size=%s, num_workers=%d): %s" % (case["bs"], case["workers"], msg)
+    return _oracle(case, obs)
+
+
+def _oracle(case, obs):
     ids, has_tf, kind = case["ids"], tf_mode(case) is not None, case["kind"]
     log, draws = obs["log"], obs["draws"]
     nproc = len(draws)
@@ -1124,10 +1846,25 @@ def coq_ev(e):
 def coq_applicable(case, obs):
     if "harness_exception" in obs:
         return False
+    if case["kind"] == "attr":
+        return True
     return not any(e[0] == "R" and isinstance(e[4], str) and e[4].startswith("X:") for e in obs["log"])
 
 
+ATTR_NONE = dict(c_inst=[], c_cls=[], c_inherited=[], c_bhas=[], c_probes=[], c_blank=[])
+
+
 def coq_case(case, obs):
+    from .common import Str
+    if case["kind"] == "attr":
+        return coq(Rec(c_kind=Nat(3), c_ids=[], c_has_tf=False, c_byref=False, c_inplace=False, c_draws=[], c_caches=[], c_hist=[],
+                       c_progs=[], c_sched=[], c_lin=False, c_log=[], c_dicts=[],
+                       c_inst=[Str(n) for n in obs["inst"]], c_cls=[Str(n) for n in obs["cls"]],
+                       c_inherited=[Str(n) for n in obs["inherited"] + obs["other_cls"]], c_bhas=[Str(n) for n in obs["bhas"]],
+                       c_probes=[(Str(n), Nat(w)) for n, w in obs["probes"]],
+                       c_blank=[(Str(n), Nat(w)) for n, w in obs["blank"]]))
+    if case["kind"] == "loader":
+        case = {**case, **loader_view(case, obs)}
     kind = {"seq": 0, "sched": 1, "procs": 2}[case["kind"]]
     caches, hist, progs, sched = [], [], [], []
     if kind == 0:
@@ -1139,30 +1876,90 @@ def coq_case(case, obs):
         sched = [Nat(p) for p in (case.get("sched", []) if kind == 1 else obs.get("sched", []))]
     mode = tf_mode(case)
     return coq(Rec(c_kind=Nat(kind), c_ids=list(case["ids"]), c_has_tf=mode is not None,
-                   c_byref=case["ptype"] in BYREF, c_inplace=mode != "ticket",
+                   c_byref=is_byref(case), c_inplace=mode != "ticket",
                    c_draws=[list(d) for d in obs["draws"]], c_caches=caches, c_hist=hist, c_progs=progs,
                    c_sched=sched, c_lin=(kind == 2 and obs.get("lin") != "budget"),
                    c_log=[coq_ev(e) for e in obs["log"]],
-                   c_dicts=[[(k, v) for k, v in d] for d in obs["dicts"]]))
+                   c_dicts=[[(k, v) for k, v in d] for d in obs["dicts"]], **ATTR_NONE))
 
 
 # ---------------------------------------------------------------------------
 # generation
 # ---------------------------------------------------------------------------
-def gen_payload(rng, n):
-    """(ptype, transform mode, ids)"""
+def gen_leaf(rng, want_tensor=False):
     r = rng.random()
-    ptype = "falsy" if r < 0.12 else rng.choice(sorted(BYREF)) if r < 0.55 else rng.choice(PTYPES[:-1])
-    if ptype == "falsy":           # every falsy / sentinel-looking value; nothing to modify in place
+    if want_tensor or r < 0.45:
+        return ["tensor", rng.choice([[], [1], [2], [2, 2], [3], [1, 2, 1], [0]]), rng.choice(["i64", "i64", "f32"])]
+    if r < 0.57:
+        return ["ndarray", rng.choice([[2], [1, 2], [], [3]])]
+    return [rng.choice(["int", "str", "float", "bytes", "none", "int"])]
+
+
+G_CONTAINERS = ["list", "tuple", "sublist", "dict", "subdict", "nt", "dc", "fdc", "slots", "plain", "ns"]
+G_KEYS = ["x", "y", "img", "label", "meta", 0, 1, 7]
+G_NAMES = ["x", "y", "img", "pos", "edge_index", "f0", "target"]
+
+
+def gen_shape(rng, depth=0):
+    """a random object graph: containers and objects (dataclasses, classes with __dict__ / __slots__, namedtuples,
+    namespaces) nested in one another up to depth 4, tensors / arrays / scalars at the leaves"""
+    if depth >= 4 or (depth > 0 and rng.random() < 0.2 + 0.2 * depth):
+        return gen_leaf(rng)
+    t = rng.choice(G_CONTAINERS + ["dc", "plain", "slots", "nt", "fdc", "ns"])       # objects twice as likely
+    n = rng.randint(1, 3)
+    kids = [gen_shape(rng, depth + 1) for _ in range(n)]
+    if t in G_MAP:
+        return [t] + [[k, kid] for k, kid in zip(rng.sample(G_KEYS, n), kids)]
+    if t in G_ATTR:
+        return [t] + [[k, kid] for k, kid in zip(rng.sample(G_NAMES, n), kids)]
+    return [t] + kids
+
+
+def gen_graph(rng):
+    while True:
+        s = gen_shape(rng)
+        if not g_carries_id(s):
+            continue
+        if g_has_tensor(s) or rng.random() < 0.2:
+            return s
+
+
+def gen_base(rng, ptype, want_getitems=False):
+    """the wrapped dataset: its shape and which names of the cache layer it carries itself"""
+    r = rng.random()
+    if r < 0.45 and not want_getitems:
+        return None
+    shape = rng.choice(BASE_SHAPES[1:]) if want_getitems and rng.random() < 0.8 else rng.choice(BASE_SHAPES)
+    attrs = [a for a in COLLIDE if rng.random() < (0.5 if a == "transform" else 0.25)]
+    if ptype == "falsy" and "transform" in attrs:           # nothing to modify: an own transform would be idempotent
+        attrs.remove("transform")
+    return {"shape": shape, "attrs": attrs, "bd": rng.randint(1, 49)}
+
+
+def gen_common(rng, n, want_getitems=False):
+    """payload type, post-cache transform, sample ids, wrapped dataset"""
+    r = rng.random()
+    out = {}
+    if r < 0.10:                   # every falsy / sentinel-looking value; nothing to modify in place
+        ptype = "falsy"
         ids = [rng.randrange(N_FALSY) for _ in range(n)] if rng.random() < 0.3 else rng.sample(range(N_FALSY), min(n, N_FALSY))
         ids += [rng.randrange(N_FALSY) for _ in range(n - len(ids))]
         if n and rng.random() < 0.5:
             ids[rng.randrange(n)] = 0                   # None itself
         mode = rng.choice([None, None, "ticket"])
     else:
+        ptype = "graph" if r < 0.45 else rng.choice(sorted(BYREF)) if r < 0.70 else rng.choice(PTYPES[:-1])
+        if ptype == "graph":
+            out["shape"] = gen_graph(rng)
         ids = gen_ids(rng, n)
         mode = rng.choice([None, "ticket", "ticket", "inplace", "inplace"])
-    return ptype, mode, ids
+    base = gen_base(rng, ptype, want_getitems)
+    if base is not None:
+        out["base"] = base
+        if "transform" in base["attrs"]:                # ids are the ids of what the wrapped dataset returns: raw id + bd
+            ids = [base["bd"] + k % (900 - base["bd"]) for k in ids]
+    out.update({"ptype": ptype, "ids": ids, "has_tf": mode is not None, "tf": mode})
+    return out
 
 
 def gen_mut(rng):
@@ -1215,8 +2012,7 @@ def gen_seq(rng, big=False):
             hist.append([p] + gen_mut(rng))
         else:
             hist.append([p, "len"])
-    ptype, mode, ids = gen_payload(rng, n)
-    return {"kind": "seq", "ptype": ptype, "ids": ids, "has_tf": mode is not None, "tf": mode,
+    return {"kind": "seq", **gen_common(rng, n),
             "handles": handles, "how": how, "hist": hist, "own_manager": rng.random() < 0.1}
 
 
@@ -1250,9 +2046,7 @@ def gen_sched(rng, big=False):
         sched = [k % np_ for k in range(rng.randint(0, total + 4))]
     if rng.random() < 0.5:
         sched += [p for p in range(np_) for _ in range(4 * len(progs[p]))]   # let everybody finish
-    ptype, mode, ids = gen_payload(rng, n)
-    return {"kind": "sched", "ptype": ptype, "ids": ids, "has_tf": mode is not None, "tf": mode,
-            "progs": progs, "sched": sched}
+    return {"kind": "sched", **gen_common(rng, n), "progs": progs, "sched": sched}
 
 
 def directed_sched():
@@ -1328,20 +2122,89 @@ def gen_procs(rng, k, small=False):
                 prog.append(["get", rng.randrange(-n, n + 1)] if r < 0.7 else gen_mut(rng) if r < 0.8
                             else ["dispose"] if r < 0.93 else ["len"])
             progs.append(prog)
-    ptype, mode, ids = gen_payload(rng, n)
-    return {"kind": "procs", "ptype": ptype, "ids": ids, "has_tf": mode is not None, "tf": mode, "progs": progs,
-            "pickled": k % 2 == 1}
+    return {"kind": "procs", **gen_common(rng, n), "progs": progs, "pickled": k % 2 == 1}
+
+
+def gen_loader(rng, workers):
+    """a DataLoader over the cached dataset: 1-3 epochs, each with its own index sequence (a sampler), optional dispose
+    between epochs; mostly over wrapped datasets that define __getitems__"""
+    n = rng.choice([1, 2, 3, 4, 5, 6, 8])
+    ne = rng.choice([1, 2, 2, 3]) if workers == 0 else rng.choice([2, 2, 3])
+    epochs = []
+    for _ in range(ne):
+        style = rng.random()
+        if style < 0.4:
+            idxs = list(range(n))
+        elif style < 0.7:
+            idxs = rng.sample(range(n), n)
+        else:
+            idxs = [rng.randrange(-n, n) for _ in range(rng.randint(1, 2 * n))]
+        epochs.append(idxs)
+    bs = rng.choice([1, 2, 2, 3, 4, None])
+    case = {"kind": "loader", **gen_common(rng, n, want_getitems=True), "workers": workers, "bs": bs, "epochs": epochs,
+            "clear_after": [rng.random() < 0.3 for _ in epochs], "how": rng.choice(["kw", "plain"]), "own_manager": False}
+    if workers == 0:
+        nb = [len(b) for b in loader_batches(case)]
+        case["mut"] = [[e, b, rng.choice([1000, 7, 1])] for e in range(ne) for b in range(nb[e]) if rng.random() < 0.2]
+    return case
+
+
+def gen_attr(rng):
+    """a wrapped dataset carrying a random subset of the names the cache layer uses itself (+ other names)"""
+    n = rng.choice([0, 1, 3])
+    base = {"shape": rng.choice(BASE_SHAPES), "attrs": [a for a in COLLIDE if rng.random() < 0.5], "bd": rng.randint(1, 49)}
+    extra = [a for a in ["classes", "targets", "__deepcopy__", "nope", "foo", "__setstate__", "__len__x", "logger2"] if rng.random() < 0.3]
+    mode = rng.choice([None, None, "ticket", "inplace"])
+    return {"kind": "attr", "ptype": "tensor", "ids": [50 + k for k in range(n)], "has_tf": mode is not None, "tf": mode,
+            "base": base, "extra": extra, "how": rng.choice(["kw", "plain"])}
+
+
+def directed_collide():
+    """wrapped datasets with their own `transform` / `__getitems__` / `dataset` / `shared_dict` ..., cached with and without
+    post-cache transform, read directly and through a DataLoader"""
+    out = []
+    for shape in BASE_SHAPES:
+        for mode in (None, "ticket"):
+            base = {"shape": shape, "attrs": list(COLLIDE), "bd": 17}
+            out.append({"kind": "seq", "ptype": "tensor_f", "ids": [20, 30, 40], "has_tf": mode is not None, "tf": mode,
+                        "base": base, "handles": [0, 0], "how": ["plain", "copy"], "own_manager": False,
+                        "hist": [[0, "get", 1], [1, "get", 1], [0, "get", -1], [1, "dispose"], [1, "get", 1], [0, "get", 3]]})
+            out.append({"kind": "loader", "ptype": "tensor_f", "ids": [20, 30, 40, 50], "has_tf": mode is not None, "tf": mode,
+                        "base": base, "workers": 0, "bs": 2, "epochs": [[0, 1, 2, 3], [0, 1, 2, 3]], "clear_after": [False, False],
+                        "how": "plain", "own_manager": False, "mut": []})
+            out.append({"kind": "attr", "ptype": "tensor", "ids": [50], "has_tf": mode is not None, "tf": mode,
+                        "base": base, "extra": ["classes"], "how": "plain"})
+    return out
+
+
+def directed_graph():
+    """object payloads holding tensors, read again after an in-place transform / a consumer write"""
+    out = []
+    t = ["tensor", [2], "f32"]
+    for shape in (["dc", t, ["int"]], ["plain", ["x", t], ["y", ["list", t]]], ["slots", t, t, ["str"]], ["nt", t, ["int"]],
+                  ["tuple", ["dc", t], ["int"]], ["ns", ["img", t]], ["fdc", t, ["ndarray", [2]]],
+                  ["list", ["slots", ["dict", ["x", t]]]], ["subdict", ["x", ["plain", ["pos", t]]]]):
+        for mode in ("inplace", None):
+            out.append({"kind": "seq", "ptype": "graph", "shape": shape, "ids": [3, 4, 5], "has_tf": mode is not None, "tf": mode,
+                        "handles": [0, 0], "how": ["kw", "pickle"], "own_manager": False,
+                        "hist": [[0, "get", 1], [0, "mut", 1000], [0, "get", 1], [1, "get", 1], [1, "mut", 7], [0, "get", 1],
+                                 [1, "get", 2], [1, "get", 2]]})
+    return out
 
 
 def gen_cases(rng, tier):
-    cases = directed_sched() + directed_alias() + directed_falsy()
+    cases = directed_sched() + directed_alias() + directed_falsy() + directed_collide() + directed_graph()
     if tier == "quick":
-        cases += [gen_seq(rng) for _ in range(220)]
-        cases += [gen_sched(rng) for _ in range(640)]
+        cases += [gen_seq(rng) for _ in range(240)]
+        cases += [gen_sched(rng) for _ in range(600)]
+        cases += [gen_loader(rng, 0) for _ in range(90)] + [gen_loader(rng, 1 + k % 2) for k in range(12)]
+        cases += [gen_attr(rng) for _ in range(60)]
         cases += [gen_procs(rng, k, small=True) for k in range(4)]
         return cases
     cases += [gen_seq(rng) for _ in range(700)] + [gen_seq(rng, big=True) for _ in range(300)]
     cases += [gen_sched(rng) for _ in range(4000)]
+    cases += [gen_loader(rng, 0) for _ in range(300)] + [gen_loader(rng, 1) for _ in range(40)] + [gen_loader(rng, 2) for _ in range(60)]
+    cases += [gen_attr(rng) for _ in range(300)]
     cases += list(exhaustive_sched(8))
     cases += [gen_procs(rng, k) for k in range(24)] + [gen_procs(rng, k, small=True) for k in range(12)]
     return cases
@@ -1351,21 +2214,89 @@ def search_cases(rng, tier):
     yield from directed_sched()
     yield from directed_alias()
     yield from directed_falsy()
+    yield from directed_collide()
+    yield from directed_graph()
+    for k in range(400):
+        yield gen_loader(rng, 0) if k % 2 else gen_attr(rng)
+    for k in range(300):
+        yield gen_seq(rng)
     yield from exhaustive_sched(7)
     for k in range(20000):
         yield gen_sched(rng) if k % 3 else gen_seq(rng)
 
 
+def _shrink_common(c):
+    """smaller wrapped dataset / payload"""
+    b = c.get("base")
+    if b:
+        yield {k: v for k, v in c.items() if k != "base"}
+        for a in b["attrs"]:
+            if a != "transform":
+                yield {**c, "base": {**b, "attrs": [x for x in b["attrs"] if x != a]}}
+        if b["shape"] != "plain":
+            yield {**c, "base": {**b, "shape": "plain"}}
+    if c["ptype"] == "graph":
+        sh = c["shape"]
+        kids = [x[1] if sh[0] in G_MAP or sh[0] in G_ATTR else x for x in sh[1:]] if sh[0] not in (
+            "int", "str", "float", "bytes", "none", "tensor", "ndarray") else []
+        for kid in kids:
+            if g_carries_id(kid):
+                yield {**c, "shape": kid}
+        for j in range(1, len(sh)):
+            if kids and len(sh) > 2 and sh[0] not in G_CLASSES:
+                cand = sh[:j] + sh[j + 1:]
+                if g_carries_id(cand):
+                    yield {**c, "shape": cand}
+    elif c["ptype"] not in ("int", "falsy") and not (b and "transform" in b["attrs"] and c["ptype"] == "tensor_f"):
+        yield {**c, "ptype": "tensor_f" if b and "transform" in b["attrs"] else "tensor"}
+        if not (b and "transform" in b["attrs"]):
+            yield {**c, "ptype": "int"}
+
+
 def shrink(c):
+    if c["kind"] == "attr":
+        for a in c.get("extra", []):
+            yield {**c, "extra": [x for x in c["extra"] if x != a]}
+        b = c["base"]
+        for a in b["attrs"]:
+            yield {**c, "base": {**b, "attrs": [x for x in b["attrs"] if x != a]}}
+        if b["shape"] != "plain":
+            yield {**c, "base": {**b, "shape": "plain"}}
+        if tf_mode(c) is not None:
+            yield {**c, "has_tf": False, "tf": None}
+        return
+    if c["kind"] == "loader":
+        ep = c["epochs"]
+        for e in range(len(ep)):
+            if len(ep) > 1:
+                yield {**c, "epochs": ep[:e] + ep[e + 1:], "clear_after": c["clear_after"][:e] + c["clear_after"][e + 1:],
+                       "mut": [[x, b, d] if x < e else [x - 1, b, d] for x, b, d in c.get("mut", []) if x != e]}
+        for e in range(len(ep)):
+            for j in range(len(ep[e])):
+                if len(ep[e]) > 1:
+                    yield {**c, "epochs": ep[:e] + [ep[e][:j] + ep[e][j + 1:]] + ep[e + 1:], "mut": []}
+        if c.get("mut"):
+            yield {**c, "mut": []}
+        if any(c["clear_after"]):
+            yield {**c, "clear_after": [False] * len(ep)}
+        if c["workers"] > 0:
+            yield {**c, "workers": c["workers"] - 1, "mut": []}
+        if tf_mode(c) is not None:
+            yield {**c, "has_tf": False, "tf": None}
+        yield from _shrink_common(c)
+        return
+    yield from _shrink1(c)
+    if c["kind"] in ("seq", "sched"):
+        yield from _shrink_common(c)
+
+
+def _shrink1(c):
     if c["kind"] == "seq":
         h = c["hist"]
         for i in range(len(h)):
             yield {**c, "hist": h[:i] + h[i + 1:]}
         if tf_mode(c) is not None:
             yield {**c, "has_tf": False, "tf": None}
-        if c["ptype"] not in ("int", "falsy"):
-            yield {**c, "ptype": "tensor"}
-            yield {**c, "ptype": "int"}
         for i, op in enumerate(h):
             if len(op) > 3 and op[1] == "get":
                 yield {**c, "hist": h[:i] + [op[:3]] + h[i + 1:]}
@@ -1381,9 +2312,6 @@ def shrink(c):
         for p, prog in enumerate(c["progs"]):
             for i in range(len(prog)):
                 yield {**c, "progs": c["progs"][:p] + [prog[:i] + prog[i + 1:]] + c["progs"][p + 1:]}
-        if c["ptype"] not in ("int", "falsy"):
-            yield {**c, "ptype": "tensor"}
-            yield {**c, "ptype": "int"}
     else:
         for p, prog in enumerate(c["progs"]):
             if len(prog) > 4:
@@ -1404,11 +2332,34 @@ def _switch_inside_access(case, obs):
 
 def features(case, obs):
     yield "kind=" + case["kind"]
+    shape, attrs, _ = base_spec(case)
+    yield "wrapped=" + shape
+    for a in attrs:
+        yield "wrapped-has:" + a
+    if case["kind"] == "attr":
+        for n, w in obs.get("probes", []):
+            if w == 1:
+                yield "attr:forwarded " + n
+        return
     yield "ptype=" + case["ptype"]
+    if case["ptype"] == "graph":
+        for k in sorted(g_kinds(case["shape"])):
+            yield "graph:" + k
     yield "transform=%s" % tf_mode(case)
-    yield "transport=%s" % ("by-reference (tensors)" if case["ptype"] in BYREF else "by-value")
+    yield "transport=%s" % ("by-reference (tensors)" if is_byref(case) else "by-value")
     if case["ptype"] == "falsy" and 0 in case["ids"]:
         yield "payload None"
+    if case["kind"] == "loader":
+        yield "loader:workers=%d" % case["workers"]
+        yield "loader:batch_size=%s" % case["bs"]
+        yield "loader:epochs=%d" % len(case["epochs"])
+        if shape != "plain":
+            yield "loader:wrapped dataset defines __getitems__"
+        if "log" in obs:
+            case = {**case, **loader_view(case, obs)}
+    if case["kind"] == "loader":
+        yield "harness_exception"
+        return
     cmds = [op[1:] for op in case["hist"]] if case["kind"] == "seq" else [op for prog in case["progs"] for op in prog]
     if any(op[0] == "mut" for op in cmds):
         yield "consumer-write"
@@ -1475,14 +2426,25 @@ def _reload_after_clear(log):
 
 
 def nontrivial_key(case, obs):
+    if case["kind"] == "attr":
+        if "probes" not in obs or not any(w == 1 for _, w in obs["probes"]):
+            return None
+        return ("attr", repr(case["base"]), tuple(case.get("extra", [])), tf_mode(case))
     if "log" not in obs:
         return None
+    if case["kind"] == "loader":
+        log = obs["log"]
+        if not sum(1 for e in log if e[0] == "R") > sum(1 for e in log if e[0] == "L"):
+            return None
+        return ("loader", repr(pspec(case)), repr(case.get("base")), tf_mode(case), case["workers"], case["bs"], repr(case["epochs"]),
+                tuple(case["clear_after"]))
     if case["kind"] == "seq":
         log = obs["log"]
         hit = sum(1 for e in log if e[0] == "R") > sum(1 for e in log if e[0] == "L")
         if not (hit and _reload_after_clear(log)):
             return None
-        return ("seq", case["ptype"], tf_mode(case), tuple(case["handles"]), tuple(tuple(op[:3]) for op in case["hist"]))
+        return ("seq", repr(pspec(case)), repr(case.get("base")), tf_mode(case), tuple(case["handles"]),
+                tuple(tuple(op[:3]) for op in case["hist"]))
     if case["kind"] == "sched":
         if not _switch_inside_access(case, obs):
             return None
